@@ -417,6 +417,7 @@ def c04(tier, seed):
     ck.selftest = quick_selftest(prog, seed, 12 if tier == 'quick' else 150, kinds=['mem', 'alt', 'ovl'])
     ck.add(run_cases(prog, handles.run_writer_case, writer_cases(tier, 'C04', phys=True)), 'write sessions (create/append x write/seek/flush) + fresh reads, metadata len, copy/move; MemoryFS, adapters, PhysicalFS@OSM')
     ck.bounds = {'sessions': '1..3 per file', 'script_steps': 2 if tier == 'quick' else 3, 'written_bytes': '1..2 symbolic per write',
+                 'o_append': 'append handles of PhysicalFS: writes and flushes only (seeks do not move the write position of an O_APPEND file)',
                  'pre_existing_bytes': '0 or 2 symbolic', 'read_buffer_sizes': [1, 3]}
     ck.assumptions = HANDLE_ASSUMPTIONS
     ck.rule = 'a state = (configuration, session modes, pre-existing content); transitions = execution paths over all scripts of the bounded length'
